@@ -74,7 +74,9 @@ pub fn check_target_seq(l: &mut Local, rng: &mut Rng) {
         for (i, h) in seq.iter().enumerate() {
             // operand kind: long, short (if it fits), dual, long dual
             let short_ok = h.bh2.len() <= 32;
-            match rng.below(4) {
+            match rng.below(5) {
+                // a copy onto the live target counts as a re-initialization too
+                4 => t.clone_from(&FuzzyHashCompareTarget::from(&longs[i])),
                 0 if short_ok => t.init_from(&FuzzyHash::build(h)),
                 1 if short_ok => t.init_from(&DualFuzzyHash::new_from_internals_near_raw(h.log, &h.bh1, &h.bh2)),
                 2 => t.init_from(&LongDualFuzzyHash::new_from_internals_near_raw(h.log, &h.bh1, &h.bh2)),
